@@ -70,6 +70,16 @@ CHECKS = {
              "their documented target must be rejected, documented ones accepted.",
         note=NOTE, technique="exhaustive path enumeration of the option state graph, metamorphic token-equality oracle on the real macro",
         ref="DESIGN.md §3 C17"),
+    "C19": dict(
+        text="15 programs (every input mode x delegation kind, sync and async, by-value, concrete, no_deps, static/dyn targets, async_trait), all invoked by "
+             "absolute path with no imports, x {empty scope, each of 20 local decoy items alone (traits Send/Sync/Sized/Future/AsRef/Borrow/Unpin, structs "
+             "Impl/Box/Pin, modules core/entrait/std/alloc/future/marker/convert/borrow, value-namespace unit structs and consts), all decoys together, the "
+             "trait itself named Send/Sync/Sized/Future/AsRef/Impl/Box/Unpin}: each state is compiled and run and must give the model's values and the same "
+             "observations as in the empty scope; one #![no_std] lib crate holds every mode; every path of the generated part of every recorded expansion "
+             "must be rooted at ::entrait/::core, a macro-introduced generic/receiver, or be copied from the input.",
+        note=NOTE + " Decoys named Box/Pin are not applied to programs that go through the third-party async_trait macro (its own expansion is not hygienic).",
+        technique="exhaustive enumeration of (program x hostile scope) on the real macro; differential + model oracle, structural path-root scan",
+        ref="DESIGN.md §3 C19"),
     "C20": dict(
         text="Every sequence with repetition over 10 representative invocations up to length 3 (quick) / 4 + all 720 permutations of six (thorough) "
              "is expanded inside one compiler process per history; each invocation's recorded (attr, input, output) at every position must equal "
